@@ -48,6 +48,12 @@ impl LintContext {
                 if let TokenKind::Punctuation(Punctuation::Quote(quote)) = &mut fat.kind {
                     quote.twin_loc = None;
                 }
+                // Whether a neighbouring word is in the dictionary (and with which metadata) is not
+                // part of the context either: adding that word to a dictionary must not bring an
+                // ignored lint back.
+                if let TokenKind::Word(metadata) = &mut fat.kind {
+                    *metadata = None;
+                }
                 fat
             })
             .collect();
